@@ -10,7 +10,11 @@ def groups(tier):
             Group('receive.derived_state', entry='h_receive',
                   clause='receive_chunk: replica, announcement and key shares live for manifest_ttl; nothing changes on the reject paths', **K),
             Group('announce.derived_state', entry='h_announce',
-                  clause='handle_announce: key shares live for manifest_ttl; nothing changes for an expired / too short-lived manifest', **K)]
+                  clause='handle_announce: key shares live for manifest_ttl; nothing changes for an expired / too short-lived manifest', **K),
+            Group('shards.lifetime', 'kad_shards', 'C11/shards.c', entry='h_publish_lookup', replace=['chunk_id_to_string'], unwind=8, kind='unbounded',
+                  backend=['cvc5', 'z3', 'sat'], replay='republish', timeout=300, defines=['CXX_FIXED_STORAGE', 'CXX_VEC_CAP=4'],
+                  clause='publish_shards / shard_record (E2, all prior entry states, TTLs and clock readings): the share record lives for exactly the TTL it was '
+                         'published with (a re-registration never keeps an older, longer deadline) and is not served at or after its deadline')]
 def replay(group, trace):
     """two REAL nodes: lifetimes of state derived from manifests with 50 s / 3000 s / 10 days / 5 s / 29 s / expired left (min 30 s, max 1 h)"""
     import sys, os
@@ -18,6 +22,6 @@ def replay(group, trace):
     sys.path.insert(0, os.path.join(root, 'replay'))
     import replaylib as R
     exe = R.build_full('C11.cpp', with_daemon=False)
-    rc, out = R.run(exe, ['ttl'], timeout=240)
+    rc, out = R.run(exe, ['republish' if group.replay == 'republish' else 'ttl'], timeout=240)
     last = [l for l in out.strip().splitlines() if l.strip()][-1:] or ['']
     return rc == 1, last[0][:400]
